@@ -29,9 +29,14 @@ S4 == [id |-> "S4", qc |-> TRUE, ts |-> <<
         T("OPTIONS", "none"), T("WS", "none")>>]
 S5 == [id |-> "S5", qc |-> FALSE, ts |-> <<T("POST", "lcjson")>>]
 S6 == [id |-> "S6", qc |-> FALSE, ts |-> <<>>]
+(* POST first, then the other body transports, GET late: a Supports slip of a
+   body transport captures requests that belong to GET (or to nobody) *)
+S7 == [id |-> "S7", qc |-> TRUE, ts |-> <<
+        T("POST", "none"), T("GRAPHQL", "none"), T("FORM", "none"), T("MULTIPART", "none"),
+        T("GET", "none"), T("OPTIONS", "none")>>]
 
-ServersQuick == {S1, S2, S3}
-ServersFull  == {S1, S2, S3, S4, S5, S6}
+ServersQuick == {S1, S2, S3, S5, S7}
+ServersFull  == {S1, S2, S3, S4, S5, S6, S7}
 
 MethodsAll == {"GET", "POST", "HEAD", "OPTIONS", "PUT"}
 ReqCTsAll  == {"absent", "json", "graphql", "form", "multipart", "other", "bad"}
